@@ -29,6 +29,8 @@ pub open spec fn lower_seq(s: Seq<char>) -> Seq<char> decreases s.len()
 /// ASCII lower-casing (what make_ascii_lowercase / to_ascii_lowercase do).
 pub open spec fn lower_ascii_seq(s: Seq<char>) -> Seq<char> { s.map_values(|c: char| ascii_lower(c)) }
 
+pub open spec fn all_ascii_lower(s: Seq<char>) -> bool { forall|i: int| 0 <= i < s.len() ==> ascii_lower_c(#[trigger] s[i]) }
+
 pub open spec fn has_char(s: Seq<char>, c: char) -> bool { exists|i: int| 0 <= i < s.len() && s[i] == c }
 
 // A-validated fact (exhaustive over all 128 ASCII chars): on ASCII, Unicode lower-casing is ASCII lower-casing.
@@ -43,13 +45,30 @@ pub assume_specification [char::is_ascii] (c: &char) -> (r: bool) ensures r == i
 pub assume_specification [char::is_ascii_alphanumeric] (c: &char) -> (r: bool) ensures r == ascii_alnum_c(*c);
 pub assume_specification [char::is_ascii_lowercase] (c: &char) -> (r: bool) ensures r == ascii_lower_c(*c);
 pub assume_specification [char::is_ascii_hexdigit] (c: &char) -> (r: bool) ensures r == ascii_hex_c(*c);
+pub assume_specification [char::is_ascii_uppercase] (c: &char) -> (r: bool) ensures r == ascii_upper_c(*c);
+pub assume_specification [char::is_ascii_digit] (c: &char) -> (r: bool) ensures r == ascii_digit_c(*c);
+pub assume_specification [char::is_ascii_alphabetic] (c: &char) -> (r: bool) ensures r == (ascii_upper_c(*c) || ascii_lower_c(*c));
 pub assume_specification [char::to_ascii_lowercase] (c: &char) -> (r: char) ensures r == ascii_lower(*c);
+
+/// byte length of the UTF-8 encoding (uninterpreted; only that it is a function of the text is used)
+pub uninterp spec fn utf8_len(s: Seq<char>) -> nat;
+pub assume_specification [String::len] (s: &String) -> (r: usize) ensures r == utf8_len(s@);
 
 // ---- string wrappers (R3): body IS the original call; only the contract is assumed ----
 #[verifier::external_body]
-pub fn x_make_ascii_lowercase(s: &mut String)
+pub fn x_make_ascii_lowercase(s: &mut str)
     ensures final(s)@ == lower_ascii_seq(old(s)@)
 { s.make_ascii_lowercase() }
+
+// `&mut String -> &mut str` deref coercion: same text, writes go through.
+pub assume_specification [ <String as core::ops::DerefMut>::deref_mut ] (s: &mut String) -> (r: &mut str)
+    ensures r@ == old(s)@, final(r)@ == final(s)@;
+
+/// `<[char]>::contains`
+#[verifier::external_body]
+pub fn x_slice_contains(s: &[char], c: &char) -> (r: bool)
+    ensures r == s@.contains(*c)
+{ s.contains(c) }
 
 #[verifier::external_body]
 pub fn x_to_ascii_lowercase(s: &str) -> (r: String)
@@ -131,6 +150,91 @@ pub proof fn lemma_lower_seq_take(s: Seq<char>, k: int)
     ensures lower_seq(s.take(k + 1)) == lower_seq(s.take(k)) + u_to_lower(s[k])
 {
     assert(s.take(k + 1).drop_last() == s.take(k));
+}
+
+// ---- trimming / splitting vocabulary (defined, so lemmas about it are proved) ----
+pub open spec fn trim_start_spec(s: Seq<char>, c: char) -> Seq<char> decreases s.len()
+{ if s.len() > 0 && s[0] == c { trim_start_spec(s.subrange(1, s.len() as int), c) } else { s } }
+pub open spec fn trim_end_spec(s: Seq<char>, c: char) -> Seq<char> decreases s.len()
+{ if s.len() > 0 && s.last() == c { trim_end_spec(s.drop_last(), c) } else { s } }
+pub open spec fn trim_spec(s: Seq<char>, c: char) -> Seq<char> { trim_end_spec(trim_start_spec(s, c), c) }
+pub open spec fn all_char(s: Seq<char>, c: char) -> bool { forall|i: int| 0 <= i < s.len() ==> #[trigger] s[i] == c }
+
+/// `s.trim_matches(c)` for a char pattern
+#[verifier::external_body]
+pub fn x_trim_matches<'a>(s: &'a str, c: char) -> (r: &'a str)
+    ensures r@ == trim_spec(s@, c)
+{ s.trim_matches(c) }
+
+/// `s.trim_start_matches(c)` for a char pattern
+#[verifier::external_body]
+pub fn x_trim_start_matches<'a>(s: &'a str, c: char) -> (r: &'a str)
+    ensures r@ == trim_start_spec(s@, c)
+{ s.trim_start_matches(c) }
+
+/// `s.contains(set)` for a `&[char]` pattern
+#[verifier::external_body]
+pub fn x_str_contains_any(s: &str, set: &[char]) -> (r: bool)
+    ensures r == exists|i: int| 0 <= i < s@.len() && set@.contains(#[trigger] s@[i])
+{ s.contains(set) }
+
+/// `s.contains(c)` for a char pattern
+#[verifier::external_body]
+pub fn x_str_contains_char(s: &str, c: char) -> (r: bool)
+    ensures r == has_char(s@, c)
+{ s.contains(c) }
+
+pub proof fn lemma_trim_start_all(s: Seq<char>, c: char)
+    ensures
+        all_char(s, c) ==> trim_start_spec(s, c).len() == 0,
+        !all_char(s, c) ==> trim_start_spec(s, c).len() > 0 && trim_start_spec(s, c)[0] != c && !all_char(trim_start_spec(s, c), c),
+    decreases s.len()
+{
+    if s.len() > 0 && s[0] == c {
+        let t = s.subrange(1, s.len() as int);
+        lemma_trim_start_all(t, c);
+        if all_char(s, c) {
+            assert forall|i: int| 0 <= i < t.len() implies #[trigger] t[i] == c by { assert(t[i] == s[i + 1]); }
+        } else {
+            let j = choose|j: int| 0 <= j < s.len() && s[j] != c;
+            assert(t[j - 1] == s[j]);
+        }
+    } else if s.len() > 0 {
+        assert(s[0] != c);
+    }
+}
+
+pub proof fn lemma_trim_end_all(s: Seq<char>, c: char)
+    ensures
+        all_char(s, c) ==> trim_end_spec(s, c).len() == 0,
+        !all_char(s, c) ==> trim_end_spec(s, c).len() > 0,
+    decreases s.len()
+{
+    if s.len() > 0 && s.last() == c {
+        let t = s.drop_last();
+        lemma_trim_end_all(t, c);
+        if !all_char(s, c) {
+            let j = choose|j: int| 0 <= j < s.len() && s[j] != c;
+            assert(t[j] == s[j]);
+        }
+    } else if s.len() > 0 {
+        assert(s[s.len() - 1] != c);
+    }
+}
+
+/// trimming leaves nothing exactly when the string consists of the trimmed character only
+pub proof fn lemma_trim_empty_iff_all(s: Seq<char>, c: char)
+    ensures (trim_spec(s, c).len() == 0) == all_char(s, c)
+{
+    lemma_trim_start_all(s, c);
+    lemma_trim_end_all(trim_start_spec(s, c), c);
+}
+
+pub proof fn lemma_lower_ascii_fixed(s: Seq<char>)
+    requires forall|i: int| 0 <= i < s.len() ==> !ascii_upper_c(#[trigger] s[i])
+    ensures lower_ascii_seq(s) == s
+{
+    assert(lower_ascii_seq(s) =~= s);
 }
 
 // ---- unit U-lower.lowercase_in_place  <= purl/src/lib.rs:390 ----
